@@ -17,24 +17,39 @@ LEVEL_TEXT = ('Partial. Coq theorems: (a) adjoint identity over an abstract real
               'read on the objective exist (positive on the repaired tree; fails if F3 returns); both reverse rules restore objective.p, '
               'solve the adjoint system by CG at infinite radius from zero with the Hessian at the forward solution, take component 0, '
               'return a zero cotangent for the initial guess and vec_jacobian_p<k> in slot k in {0,1,2,4} guarded by p[k] != None, None in '
-              'slot 3/5; (c) slot laws of param_index_update (regenerated table); (d) the two function-space constructors are the same '
-              'term after mesh.coords := coords and the re-made mesh carries every Mesh field verbatim. Not proved: JAX vjp/jvp closures are '
-              'transposes (checked against dense jacfwd on the implementation).')
+              'slot 3/5; (a)+(b) composed: a denotation of the extracted rule descriptors (every flag selects between the source behaviour and an '
+              'arbitrary other value) over abstract grad_x / vjp / jvp / CG, with the slot helpers Objective.vec_jacobian_p<k>, the jitted vjp closures '
+              'they call, hessian_vec, grad_x, the place where objective.p is re-established (before anything is evaluated on the objective) and what '
+              'the forward rules save all regenerated from the AST; theorem: nonlinear_solve_with_state_b returns in position k of Params the '
+              'implicit-function cotangent of slot k at the SAVED parameters for ANY objective.p at backward time (None for absent slots / slot 3, zero '
+              'for the guess), nonlinear_solve_b the design-slot cotangent if the other slots of objective.p are unchanged since the forward pass; the '
+              'closures linearise at the actual parameters; (c) slot laws of param_index_update (regenerated table); (d) the two function-space '
+              'constructors are the same term after mesh.coords := coords and the re-made mesh carries every Mesh field verbatim. Not proved '
+              '(hypotheses of the composition, checked on the implementation against dense linear algebra): JAX vjp is the transpose of the derivative, '
+              'jvp of a gradient is linear and self-adjoint, CG at infinite radius returns a minimiser for every SPD preconditioner (streams with exact and '
+              'deliberately poor preconditioners), the implicit function theorem itself (the tangent is defined by H u = -J dp); the vjp wrappers of '
+              'MechanicsInverse are only checked against dense jacfwd.')
 TECHNIQUE = 'Coq proof (abstract algebra over Reals; computation over regenerated reference tables) + implementation-side conclusion checks against dense linear algebra'
 GEN = ['Refs_NonlinearSolve', 'CFG_drivers']
-TARGETS = ['proofs/L_C07.vo', 'proofs/L_C19.vo', 'model/M_C07_Refs.vo']
-COQ_FILES = ['model/M_C07_Refs.v', 'model/M_C19_CFG.v', 'proofs/L_C07.v', 'proofs/L_C19.v', 'props/P_C07.v']
+TARGETS = ['proofs/L_C07.vo', 'proofs/L_C07_Rule.vo', 'proofs/L_C19.vo', 'model/M_C07_Refs.vo', 'model/M_C07_Rule.vo']
+COQ_FILES = ['model/M_C07_Refs.v', 'model/M_C07_Rule.v', 'model/M_C19_CFG.v', 'proofs/L_C07.v', 'proofs/L_C07_Rule.v', 'proofs/L_C19.v', 'props/P_C07.v']
 TRUSTED = ['Coq 8.16.1 kernel + vm_compute (no native_compute)',
-           'tools/vlib/extract_drivers.py (AST -> reference/arity/unpack table, reverse-rule descriptors, normalised constructor bodies, slot table; fail closed)',
+           'tools/vlib/extract_drivers.py (AST -> reference/arity/unpack table, reverse-rule descriptors, restore kinds, forward-rule shapes, slot helpers / vjp closures of class Objective, normalised constructor bodies, slot table; fail closed or false flags)',
            'static resolution covers calls through the imported optimism modules and methods of class Objective on the first parameter; other calls (jax, numpy) are not in the table',
            'harness-side sksparse shim (dense Cholesky) as preconditioner',
            'theorems are over exact reals; CG / nonlinear-solve tolerances and binary64 rounding are covered only by the conclusion checks']
 ASSUMPTIONS = ['adjoint theorem: symmetry and bilinearity of the inner product, linearity and self-adjointness of H, <J dp, w> = <dp, J^T w> as section hypotheses (Example over R)',
+               'composition theorems: grad_x, jax.vjp, jax.jvp and solve_trust_region_minimization are section variables; hypotheses: vjp(g, q) is the transpose of the '
+               'derivative of g at q; at the point of the solve the jvp-of-gradient operator is linear and self-adjoint and CG at infinite radius from zero returns '
+               'a minimiser of the quadratic model in component 0 whatever the preconditioner (Example C07_rule_nonvacuous: jointly satisfiable over R)',
+               'the denotation reads the descriptors: statement order inside a rule is represented only by "objective.p is re-established before the first evaluation on the objective"',
                'the objective passed to the reverse rules is an optimism.Objective.Objective (methods resolved against that class)',
                'jax.vjp of the gradient w.r.t. a parameter slot is the transposed parameter Jacobian (JAX); checked against jacfwd in L2']
 RULE = ('seeded parameterised energies (quadratic + quartic, 2-6 unknowns, slots 0,1,2,4, random cotangents) through jax.vjp of nonlinear_solve and '
         'nonlinear_solve_with_state, single solves and 2-3 step load histories on ONE Objective with changing boundary data/time/design and a state slot '
-        'that depends on the previous solution; synthetic energies / material updates on small structured meshes for the helper VJPs; perturbed meshes for the '
+        'that depends on the previous solution (chained derivative w.r.t. bc, design, initial state and time offset); histories of 1-3 solves on ONE '
+        'Objective with a PrecondStrategy that is exact / bulk part only / diagonal / stale (another point and parameters) / diagonally shifted / '
+        'TwoTry(bulk, exact) / the default dense one, every slot of every step against the dense implicit-function value; synthetic energies / material updates on small structured meshes for the helper VJPs; perturbed meshes for the '
         'adjoint function space; distinct = distinct spec tuples, non-trivial = non-zero cotangent and parameter Jacobian')
 IMPORTS = ['From OV.model Require Import M_C07_Refs.', 'From OV.gen Require Import Refs_NonlinearSolve.']
 
@@ -188,9 +203,10 @@ def run_history(spec):
     settings = Eq.get_settings(tol=1e-11, max_trust_iters=300)
     state_rule = spec['rule'] == 'state'
 
-    def params(k, U, b, d):
+    def params(k, U, b, d, s=p[1], t=p[4]):
+        # s (initial state) and t (time offset) default to the values of the base parameters: every slot of the history is differentiated
         if state_rule:
-            return Obj.Params(bc_data=b * sc[k], state_data=p[1] + jnp.tanh(As @ U), design_data=d * (1.0 + 0.3 * k), time=jnp.array(ts[k]))
+            return Obj.Params(bc_data=b * sc[k], state_data=s + jnp.tanh(As @ U), design_data=d * (1.0 + 0.3 * k), time=ts[k] + (t - p[4]))
         return Obj.param_index_update(p, 2, d * (1.0 + 0.3 * k))      # the design rule keeps the other slots of objective.p
 
     def newton(pk, x):
@@ -199,38 +215,153 @@ def run_history(spec):
             x = x - jnp.linalg.solve(h(x, pk), g(x, pk))
         return x
 
-    def J_ref(b, d):
+    def J_ref(b, d, s, t):
         U, tot = jnp.zeros(n), 0.0
         for k in range(K):
-            U = newton(params(k, U, b, d), U)
+            U = newton(params(k, U, b, d, s, t), U)
             tot = tot + vs[k] @ U
         return tot
     try:
         with quiet():
             obj = Obj.Objective(f, jnp.zeros(n), p)
 
-            def J_impl(b, d):
+            def J_impl(b, d, s, t):
                 U, tot = jnp.zeros(n), 0.0
                 for k in range(K):
                     if state_rule:
-                        U = NLS.nonlinear_solve_with_state(obj, settings, U, params(k, U, b, d))
+                        U = NLS.nonlinear_solve_with_state(obj, settings, U, params(k, U, b, d, s, t))
                     else:
                         U = NLS.nonlinear_solve(obj, settings, U, d * (1.0 + 0.3 * k))
                     tot = tot + vs[k] @ U
                 return tot
-            gi = jax.grad(J_impl, (0, 1))(p[0], p[2])
-            gr = jax.grad(J_ref, (0, 1))(p[0], p[2])
+            gi = jax.grad(J_impl, (0, 1, 2, 3))(p[0], p[2], p[1], p[4])
+            gr = jax.grad(J_ref, (0, 1, 2, 3))(p[0], p[2], p[1], p[4])
     except Exception as ex:
         return ['reverse mode through a %d-step history raised %s: %s' % (K, type(ex).__name__, str(ex)[:200])], dict(error=type(ex).__name__)
     bad, info = [], {}
-    for name, a, b in zip(('bc parameter', 'design parameter'), gi, gr):
-        a, b = onp.array(a), onp.array(b)
+    for name, a, b in zip(('bc parameter', 'design parameter', 'initial state parameter', 'time offset'), gi, gr):
+        a, b = onp.atleast_1d(onp.array(a)), onp.atleast_1d(onp.array(b))
         err, sc_ = float(onp.linalg.norm(a - b)), float(onp.linalg.norm(b))
         info[name] = dict(err=err, ref_norm=sc_)
         if not err <= 2e-4 * (sc_ + 1e-3):
             bad.append('%d-step history on one Objective (%s rule): dJ/d(%s) = %r differs from the chained implicit-function derivative %r by %.3g'
                        % (K, spec['rule'], name, a.tolist(), b.tolist(), err))
     return bad, info
+
+# ============================================================================ (a'') every slot of every step, exact / poor preconditioners
+
+PRECOND_KINDS = ('bulk', 'diag', 'stale', 'shifted', 'exact', 'twotry', 'default')
+POOR_PRECONDS = ('bulk', 'diag', 'stale', 'shifted')
+
+
+def make_precond_strategy(M, kind, f_total, f_bulk, xq, p_init):
+    """PrecondStrategy of the Objective.  'exact': the full Hessian at the point asked for; 'bulk': the Hessian of the bulk part only
+    (the foundation term is not assembled); 'diag': the diagonal of the full Hessian; 'stale': the full Hessian, but at another point and
+    with the initial parameters whatever is asked for; 'shifted': full Hessian + 0.5 |diag| (what precond_at_attempt(k>0) returns);
+    'twotry': TwoTryPrecondStrategy(bulk, exact); 'default': None (Objective's own dense Hessian).  All are SPD."""
+    jax, onp, Obj = M['jax'], M['onp'], M['Obj']
+    from scipy.sparse import csc_matrix
+    ht, hb = jax.jit(jax.hessian(f_total, 0)), jax.jit(jax.hessian(f_bulk, 0))
+    full = lambda x, p: onp.array(ht(x, p))
+    asm = dict(exact=lambda x, p: csc_matrix(full(x, p)),
+               bulk=lambda x, p: csc_matrix(onp.array(hb(x, p))),
+               diag=lambda x, p: csc_matrix(onp.diag(onp.diag(full(x, p)))),
+               stale=lambda x, p: csc_matrix(full(xq, p_init)),
+               shifted=lambda x, p: csc_matrix(full(x, p) + 0.5 * onp.diag(onp.abs(onp.diag(full(x, p))))))
+    if kind == 'default':
+        return None
+    if kind == 'twotry':
+        return Obj.TwoTryPrecondStrategy(asm['bulk'], asm['exact'])
+    return Obj.PrecondStrategy(asm[kind])
+
+
+def run_precond(spec):
+    """K >= 1 solves on ONE Objective whose preconditioner is exact or a deliberately poor approximation of the Hessian; the parameters of
+    every step differ (and the state slot of step k depends on the solution of step k-1).  F = sum_k v_k . U_k is differentiated in reverse
+    mode w.r.t. EVERY slot of EVERY step's parameters; since the cotangent of the initial guess is zero, the cotangent of (step k, slot j)
+    must be -v_k^T H(U_k,p_k)^-1 d(grad)/dp_j(U_k,p_k): compared with that value from dense linear algebra, step by step.  The backward rule of
+    step k runs after the forward passes of all later steps: objective.p and the factorised preconditioner then belong to another step."""
+    M = mods()
+    jax, jnp, onp, Obj, Eq, NLS = M['jax'], M['jnp'], M['onp'], M['Obj'], M['Eq'], M['NLS']
+    f_bulk, p, _ = build_energy(spec)
+    n, K = spec['n'], spec['steps']
+    r = random.Random(spec['seed'] + 11)
+    dk = jnp.array([r.uniform(0.5, 2.0) for _ in range(n)])
+
+    def f(x, q):        # bulk + foundation; the foundation part is what a 'bulk' preconditioner leaves out
+        return f_bulk(x, q) + 0.5 * jnp.sum(dk * x ** 2) * (1.0 + 0.5 * q[4]) + 0.05 * jnp.sum(dk * x ** 4)
+    As = jnp.array([[r.uniform(-1, 1) for _ in range(n)] for _ in range(spec.get('k1', 2))])
+    vs = [jnp.array([r.uniform(-1, 1) for _ in range(n)]) for _ in range(K)]
+    sc = [r.uniform(0.5, 1.5) * (-1) ** k for k in range(K)]
+    ts = [r.uniform(0.2, 1.0) for _ in range(K)]
+    xq = jnp.array([r.uniform(-1, 1) for _ in range(n)])
+    state_rule = spec['rule'] == 'state'
+    settings = Eq.get_settings(tol=1e-11, max_trust_iters=300, cg_inexact_solve_ratio=1e-9, max_cg_iters=100, max_cumulative_cg_iters=5000)
+    g, h = jax.grad(f), jax.hessian(f)
+
+    def newton(pk, x):
+        for _ in range(40):
+            x = x - jnp.linalg.solve(h(x, pk), g(x, pk))
+        return x
+    # the history (plain Newton, no optimism code): parameters and exact solutions of every step
+    plist, xs, U = [], [], jnp.zeros(n)
+    for k in range(K):
+        if state_rule:
+            pk = Obj.Params(bc_data=p[0] * sc[k], state_data=p[1] + jnp.tanh(As @ U), design_data=p[2] * (1.0 + 0.3 * k), time=jnp.array(ts[k]))
+        else:
+            pk = Obj.param_index_update(p, 2, p[2] * (1.0 + 0.3 * k) + 0.1 * k)
+        U = newton(pk, U)
+        plist.append(pk)
+        xs.append(U)
+    try:
+        with quiet():
+            obj = Obj.Objective(f, jnp.zeros(n), p, precondStrategy=make_precond_strategy(M, spec['precond'], f, f_bulk, xq, p))
+            if state_rule:
+                def F(pl):
+                    Uu, tot = jnp.zeros(n), 0.0
+                    for k in range(K):
+                        Uu = NLS.nonlinear_solve_with_state(obj, settings, Uu, pl[k])
+                        tot = tot + vs[k] @ Uu
+                    return tot
+                gp = jax.grad(F)(plist)
+                cots = [{j: onp.array(gp[k][j]) for j in (0, 1, 2, 4)} for k in range(K)]
+                absent = any(gp[k][3] is not None or gp[k][5] is not None for k in range(K))
+            else:
+                def F(dl):
+                    Uu, tot = jnp.zeros(n), 0.0
+                    for k in range(K):
+                        Uu = NLS.nonlinear_solve(obj, settings, Uu, dl[k])
+                        tot = tot + vs[k] @ Uu
+                    return tot
+                gd = jax.grad(F)([pk[2] for pk in plist])
+                cots = [{2: onp.array(gd[k])} for k in range(K)]
+                absent = False
+    except Exception as ex:
+        return (['reverse mode through %d solve(s) with a %s preconditioner raised %s: %s' % (K, spec['precond'], type(ex).__name__, str(ex)[:200])],
+                dict(error=type(ex).__name__))
+    bad, info = [], {}
+    if absent:
+        bad.append('cotangent for an absent parameter slot (3 or 5) is not None')
+    names = {0: 'bc_data', 1: 'state_data', 2: 'design_data', 4: 'time'}
+    for k in range(K):
+        H = onp.array(h(xs[k], plist[k]))
+        z = onp.linalg.solve(H, onp.array(vs[k]))
+        hinv = float(onp.linalg.norm(onp.linalg.inv(H), 2))
+        vn = float(onp.linalg.norm(onp.array(vs[k])))
+        cgres = max(settings.cg_tol, settings.cg_inexact_solve_ratio * vn)
+        for j, c in cots[k].items():
+            Jk = onp.array(jax.jacfwd(lambda q: g(xs[k], Obj.param_index_update(plist[k], j, q)))(plist[k][j])).reshape(n, -1)
+            ref = -(Jk.T @ z)
+            c = onp.atleast_1d(c).ravel()
+            err, scale = float(onp.linalg.norm(c - ref)), float(onp.linalg.norm(ref))
+            lim = 4.0 * float(onp.linalg.norm(Jk, 2)) * hinv * cgres + 1e-8 * scale + 1e-12
+            info['step%d.slot%d' % (k, j)] = dict(err=err, ref_norm=scale, limit=lim)
+            if not err <= lim:
+                bad.append('solve %d of %d on one Objective (%s rule, %s preconditioner), slot %d (%s): reverse-mode cotangent %r differs from the dense '
+                           'implicit-function value -v^T H^-1 dg/dp = %r by %.3g (limit %.3g from the CG tolerance)'
+                           % (k + 1, K, spec['rule'], spec['precond'], j, names[j], c.tolist(), ref.tolist(), err, lim))
+    return bad, info
+
 
 # ============================================================================ (b) helper VJPs of MechanicsInverse vs dense jacfwd transposes
 
@@ -384,12 +515,24 @@ def specs_all(ctx):
                         mode=['cartesian', 'axisymmetric'][k % 2], block_maps=False, seed=r.randrange(1 << 30)))
     for mode in ('cartesian', 'axisymmetric'):      # meshes that carry block_maps (as every Exodus mesh does)
         out.append(dict(kind='afs', Nx=2, Ny=2, qdeg=2, order=1, mode=mode, block_maps=True, seed=r.randrange(1 << 30)))
+    out.extend(precond_specs(r, ctx.n(5, 42)))
+    return out
+
+
+def precond_specs(r, count):
+    # appended after every other draw, so the older streams keep their cases.  Kinds cycle (poor preconditioners first; 7 kinds), the rule alternates
+    # (so every kind meets both rules), histories of 2-3 solves twice out of three
+    out = []
+    for k in range(count):
+        out.append(dict(kind='precond', precond=PRECOND_KINDS[k % len(PRECOND_KINDS)], rule=['state', 'design'][k % 2],
+                        family=['quartic', 'quad'][(k // 2) % 2], n=r.choice([2, 3, 4, 6]), k0=r.choice([1, 2, 3]), k1=r.choice([1, 2]),
+                        k2=r.choice([1, 2, 3]), steps=[2, 1, 3][k % 3], seed=r.randrange(1 << 30)))
     return out
 
 
 def run_spec(spec):
     try:
-        return dict(reverse=run_reverse, history=run_history, helpers=run_helpers, afs=run_afs)[spec['kind']](spec)
+        return dict(reverse=run_reverse, history=run_history, precond=run_precond, helpers=run_helpers, afs=run_afs)[spec['kind']](spec)
     except Exception as ex:      # an exception escaping the implementation on an admissible case is a verdict, not a harness crash
         import traceback
         tb = traceback.extract_tb(ex.__traceback__)
@@ -405,6 +548,9 @@ def correspondence(ctx, model_ok):
         bad, info = run_spec(spec)
         ctx.count('evaluations')
         ctx.count(spec['kind'] + '_cases')
+        if spec['kind'] == 'precond':
+            ctx.count('precond_%s_%s_%s' % (spec['precond'], spec['rule'], 'history' if spec['steps'] > 1 else 'single'))
+            ctx.count('precond_slot_cotangents_compared', len([k for k in info if k.startswith('step')]))
         distinct.add(tuple(sorted((k, str(v)) for k, v in spec.items() if k != 'seed')))
         ctx.sample(dict(spec=spec, info=info), limit=4)
         for b in bad:
@@ -432,7 +578,12 @@ def search(ctx, reasons):
     c2.tier = 'thorough'
     c2.seed = ctx.seed + 1
     specs = specs_all(c2)
-    specs = [x for x in specs if x['kind'] == 'history'] + [x for x in specs if x['kind'] != 'history'][:30]     # histories first: they expose state carried between steps
+    # first what exposes state carried between solves and adjoint solves that lean on the preconditioner: poor preconditioners on histories,
+    # then the chained histories, then everything else
+    poor = [x for x in specs if x['kind'] == 'precond' and x['precond'] in POOR_PRECONDS]
+    poor.sort(key=lambda x: (-min(x['steps'], 2), 0 if x['rule'] == 'state' else 1))
+    rest = [x for x in specs if x['kind'] not in ('history', 'precond')][:30] + [x for x in specs if x['kind'] == 'precond' and x['precond'] not in POOR_PRECONDS]
+    specs = poor[:12] + [x for x in specs if x['kind'] == 'history'] + poor[12:] + rest
     for spec in specs:
         if spec.get('block_maps'):
             continue
@@ -460,7 +611,7 @@ def replay(ctx, path):
     case = rep.get('failing_input')
     print('replay of', path)
     print(json.dumps(rep.get('reasons'), indent=1, default=str)[:3000])
-    if not case or case.get('kind') not in ('reverse', 'history', 'helpers', 'afs'):
+    if not case or case.get('kind') not in ('reverse', 'history', 'precond', 'helpers', 'afs'):
         print('no concrete failing input recorded; broken obligations:', rep.get('broken'))
         return 1
     bad, info = run_spec(case)
